@@ -511,7 +511,7 @@ pub fn run(ctx: &Ctx, rep: &Report) -> Meta {
     }
     Meta {
         rule: "issuer key from a pool, n attributes, EVERY non-empty hidden set for n = 1..3 (quick) / 1..5 (thorough) plus generated (n <= 4/5, hidden set, attribute classes), with and without a trusted-party commitment (commitment key over its own modulus); \
-               positive: verify_proof true (the issuer is given the commitment value only), proof survives JSON, in every second case every object of the flow (proof, issuer key, bases, blind signature, holder's commitment; the signature through its octets) is serialised and decoded between the steps, blind_sign returns, the unblinded signature verifies on the full vector, re-issuing with a changed revealed attribute verifies on the new vector and not on the old; \
+               in every second case each step of the flow is preceded by a call the CL03 code refuses (ten kinds on CL1024 objects of their own: changed attribute, fewer bases than attributes, other / out-of-range hidden positions, a commitment key without a base or with h = 0, a range proof under other bounds or h = 0, a value outside the interval, blind_sign for another commitment); positive: verify_proof true (the issuer is given the commitment value only), proof survives JSON, in every second case every object of the flow (proof, issuer key, bases, blind signature, holder's commitment; the signature through its octets) is serialised and decoded between the steps, blind_sign returns, the unblinded signature verifies on the full vector, re-issuing with a changed revealed attribute verifies on the new vector and not on the old; \
                negative: commitment to other attributes / C*b, single-field edits of the key material (issuer N + 2, b squared, the base of every hidden position squared; with a trusted commitment its N + 2, h and the g_i of hidden positions squared), another hidden set of the same size, hidden-position lists reaching beyond the attribute count (each refusal followed by a re-verification of the honest proof on the same thread), other bases, other issuer key, wrong trusted commitment: verify_proof false AND blind_sign refuses; \
                every integer leaf of the serialised proof perturbed by +1, -1, := 0, := sibling, one high bit flipped, +2^k for k in {128, 160, 256, 300} (16-24 sampled perturbations per proof in quick, all in thorough's fixed list): verify_proof false; list shapes: the last / first entry dropped from every list of the serialised proof, the last entry dropped from every two lists of equal length and from all of them: verify_proof false; every composite node of the serialised proof (sub-proof, array, array element) replaced by the node at the same path of a second honest proof for other hidden values (same key, bases, positions), for every second case: verify_proof false; \
                n = 6 and 8 with first / last / all / alternating hidden sets; every attribute count 9..=24 (quick) / 9..=48 (thorough) with two or three hidden positions including the last; volume: 1400 (quick) / 10000 (thorough) honest one-attribute issuance proofs each verified, half of them with a trusted-party commitment; issuers with 0..3 more bases than attributes; every second case with two or more hidden attributes gives them all the same value; a proof without the trusted-party sub-proof presented to an issuer that requires one, a sub-proof checked against another commitment key; non-trivial = hidden set != {0} (the crate's only tested configuration); evaluations = verifier / issuer decisions"
